@@ -17,6 +17,7 @@ pub mod c13;
 pub mod c14;
 pub mod c15;
 pub mod c16;
+pub mod c17;
 pub mod c18;
 pub mod c19;
 pub mod c20;
@@ -30,6 +31,7 @@ pub fn run(a: &Args) -> Report {
         "c19" => c19::run(a),
         "c20" => c20::run(a),
         "c18" => c18::run(a),
+        "c17" => c17::run(a),
         "c10" => c10::run(a),
         "c07" => c07::run(a),
         "c08" => c08::run(a),
